@@ -169,7 +169,8 @@ def mergeSegs (vectors : Bool) (mode : Nat) (segs : List Seg) (drops : List (Opt
   let same := fieldsSameAsCoded segs
   let n := newDocCount segs drops
   if n = 0 then
-    ({ chunkMode := mode, numDocs := 0, fields := names.map (fun nm => { name := nm }), stored := [] }, [])
+    -- nothing survives: an empty segment carries only the `_id` record (as one built from an empty batch)
+    ({ chunkMode := mode, numDocs := 0, fields := (names.take 1).map (fun nm => { name := nm }), stored := [] }, [])
   else
   let maps := remapAll segs drops 0
   let stored := (segs.zip maps).flatMap (fun p =>
